@@ -84,7 +84,6 @@ Section Main.
 
   Lemma side_correct po name style suffix operation wrapper is_output bm ptm :
     b_msg_ok d style bm ptm = true ->
-    header_first bm = true ->
     (is_output = true -> forallb (fault_wf d) (pto_faults po) = true) ->
     (str_eqb style s_rpc = false -> forallb element_part (selected_of d bm ptm) = true) ->
     (str_eqb style s_rpc = true ->
@@ -100,16 +99,19 @@ Section Main.
                                /\ exists dm, find_message_by_name d (msg_name dm) = Some dm /\ c = msg_class t dm)
       /\ forall all, inv d t all -> incl ms all -> decode_root te all target = item.
   Proof.
-    intros Hok Hhf Hfw Hdoc Hrpc.
+    intros Hok Hfw Hdoc Hrpc.
     destruct (b_msg_ok_facts _ _ _ Hok) as [use [bodyns [parts [dm [Hbody [Hfm [Hrpcwf [Hpw Hhw]]]]]]]].
-    destruct (exts_shape bm use bodyns parts Hbody Hhf) as [hs [Eexts Hhs]].
+    destruct (exts_shape bm use bodyns parts Hbody) as [hs1 [hs2 [Eexts [Hhs1 Hhs2]]]].
     destruct (find_message_facts d t Ht Htn _ _ _ Hfm) as [Hind [Hsuf [Hbn [Hloc [prefix [Esplit Ens]]]]]].
-    assert (forallb (header_wf d bm) hs = true) as Hhw'.
-    { rewrite Eexts, forallb_app in Hhw. apply andb_true_iff in Hhw as [H _]. exact H. }
+    set (hs := hs1 ++ hs2).
+    assert (Hhs : forallb is_header hs = true) by (unfold hs; rewrite forallb_app, Hhs1, Hhs2; reflexivity).
+    assert (forallb (header_wf d bm) hs1 = true /\ forallb (header_wf d bm) hs2 = true) as [Hhw1 Hhw2].
+    { rewrite Eexts, forallb_app in Hhw. apply andb_true_iff in Hhw as [H1 H2]. cbn in H2. auto. }
+    assert (forallb (header_wf d bm) hs = true) as Hhw' by (unfold hs; rewrite forallb_app, Hhw1, Hhw2; reflexivity).
     assert (Hsel : selected_of d bm ptm = select_parts dm parts).
     { unfold selected_of, body_parts_of. rewrite Hfm, Hbody. reflexivity. }
     assert (Hhas : has_header bm = match hs with [] => false | _ => true end).
-    { unfold has_header. rewrite Eexts, has_header_shape by exact Hhs. destruct hs; reflexivity. }
+    { unfold has_header. rewrite Eexts. apply has_header_shape; assumption. }
     set (nm := name ++ [95] ++ suffix).
     (* the envelope class before the fault step *)
     assert (Henv : forall ab,
@@ -121,16 +123,18 @@ Section Main.
     { intros ab Hab. unfold build_envelope_class. rewrite Ht. unfold build_qname. rewrite Eexts.
       change (AClass (t, nm) (Some m_envelope) TagBindingMessage (Some m_soap_env) [] [])
         with (hstate (t, nm) (Some m_envelope) (Some m_soap_env) None).
-      destruct (headers_ext_attrs d t Ht Htn Hmsgs Hsh style operation ptm bm hs Hhs Hhw') as [F2 _].
-      rewrite (fold_envelope d style operation ptm bm (t, nm) (Some m_envelope) (Some m_soap_env) hs _ use bodyns parts ab Hhs F2 Hab).
-      rewrite concat_map_bpa. reflexivity. }
+      destruct (headers_ext_attrs d t Ht Htn Hmsgs Hsh style operation ptm bm hs1 Hhs1 Hhw1) as [F2a _].
+      destruct (headers_ext_attrs d t Ht Htn Hmsgs Hsh style operation ptm bm hs2 Hhs2 Hhw2) as [F2b _].
+      rewrite (fold_envelope d style operation ptm bm (t, nm) (Some m_envelope) (Some m_soap_env) hs1 hs2 _ _ use bodyns parts ab
+                 Hhs1 Hhs2 F2a F2b Hab).
+      rewrite <- map_app, concat_map_bpa. reflexivity. }
     destruct (headers_ext_attrs d t Ht Htn Hmsgs Hsh style operation ptm bm hs Hhs Hhw') as [_ [Hhc Hhe]].
     (* header items *)
     assert (Hhdr : forall all, inv d t all -> forall owner,
       map (decode_attr (decode_class 6 te all) te all owner SOAP_ENV) (build_parts_attributes (flat_map (hdr_parts d bm) hs))
       = header_items te d bm).
     { intros all Hinv owner.
-      rewrite (header_items_hs te d bm hs (SoapBody use bodyns parts) eq_refl Eexts).
+      rewrite (header_items_hs te d bm hs1 hs2 use bodyns parts Eexts). fold hs.
       rewrite <- (map_id (build_parts_attributes _)).
       apply (element_parts_items te d t all Ht Hinv _ owner SOAP_ENV (fun a => a) None); auto. }
     (* faults *)
